@@ -128,6 +128,23 @@ impl Prop for C16 {
                 Elevation::try_from(e).unwrap(),
             )
         };
+        // history independence: a sibling query (a position a fraction of a microdegree or 40 degrees away, or another
+        // elevation) on this thread first; its result is discarded
+        {
+            let h = crate::engine::mix(&[lat.to_bits(), lon.to_bits()]);
+            let (dl, dn) = match h % 4 {
+                0 => (4e-7, -3e-7),
+                1 => (-2e-8, 6e-7),
+                2 => (0.0, 0.0),
+                _ => (7.0, -40.0),
+            };
+            let sib = Coordinates::new(
+                Latitude::try_from((lat + dl).clamp(-90.0, 90.0)).unwrap(),
+                Longitude::try_from((lon + dn).clamp(-180.0, 180.0)).unwrap(),
+                Elevation::try_from(if h % 8 < 4 { c.elev.0 } else { c.elev2.0 }).unwrap(),
+            );
+            std::hint::black_box(Qibla::new(sib));
+        }
         let q = Qibla::new(mk(c.elev.0));
         let q2 = Qibla::new(mk(c.elev2.0));
         let got = q.degrees();
